@@ -80,6 +80,12 @@ CHECKS["C11"] = dict(
   text="Breadth-first search (quick depth 4, thorough depth 5) over a 43-call menu (AddTag/UpdateTag/DelTag with valid and invalid names and definitions, references to existing, missing, self and cycle-closing tags, colour and name updates incl. taken names and type changes, marks with known, unknown and empty id lists, converter sets with known/unknown converters and on tags that cannot take one) on the real manager with 3 imported streams; background jobs are drained after every call. After every call: an error return must leave the complete tag table (definition, colour, converters, matches, pending, referenced-by) unchanged, a nil return must have had its effect, no definition may reference a missing tag, the reference graph must be acyclic, referenced-by and the Referenced flag of ListTags must mirror the definitions; a process death or no answer within 45 s is attributed to the exact call sequence.",
   note="States are merged by the complete tag table after the jobs have run. Each API call carries one operation, as the HTTP API does.")
 
+CHECKS["C12"] = dict(
+  category="fault_enumeration", engine="E3-crash-journal", design_ref="3/C12",
+  technique="exhaustive crash-point enumeration: every prefix (and torn last write) of the strace-recorded file-system mutation journal of a history on the real service is materialised and recovered from with the real manager.New",
+  text="Each history (tags, colours, settings, webhooks, marks, renames, deletes, imports with merges; a schedule in which a merge is overtaken by an import; thorough: converter caching, queued imports with tag edits) runs once on the real service under strace. The journal of file mutations below the data directory (create, write with payload and offset, truncate, unlink, rename; 170-230 mutations per history) is validated by a whole-journal replay against the directory on disk. Every prefix - and for every write the variants with its first 0, 1, half and all-but-one bytes - is materialised (about 600 crash states per history) and handed to a supervised worker that starts the real manager on it: New must return, every tag/setting acknowledged before the crash point is present (a call in flight may or may not be), every stream visible before the crash is visible under its id in the same or a newer version, never an older or a garbled one, tags converge to the truth and the service reaches quiescence, also after one more import and one more tag.",
+  note="Crash model is process kill (what the kernel has survives, last write possibly cut); no reordering or loss of unsynced data. The final clean shutdown + start of every history is part of its journal, so clean restarts are crash points too. strace is trusted after the conformance replay.")
+
 NOT_YET = {}
 
 def main():
@@ -118,6 +124,7 @@ def main():
         },
         "engines": [
             {"name": "E4-enum", "path": "harness/mc/par.go, harness/mc/shard.go", "kind_free_text": "exhaustive enumeration of a bounded input space (all ASTs / token sequences / deviations up to a bound), every case run on the real code and on a reference model; optionally in supervised worker processes so hangs, crashes and memory blow-ups are attributed to a case"},
+            {"name": "E3-crash-journal", "path": "harness/c12", "serves_properties": ["C12"], "kind_free_text": "strace journal of the file-system mutations of a history on the real service; every journal prefix and torn-write variant is materialised in memory, written out and recovered from by the real start-up code in a supervised worker"},
             {"name": "E1-bfs", "path": "harness/mc/bfs.go", "kind_free_text": "explicit-state breadth-first search over operation sequences on the real object, successor = fresh object + replay + 1 op, canonical-state dedup, reference model compared after every transition"},
         ],
         "checks": checks,
